@@ -586,6 +586,11 @@ func rewriteFile(f *ast.File, name string, info *types.Info) {
 						if u, ok := es.X.(*ast.UnaryExpr); ok && u.Op == token.ARROW {
 							recvs = append(recvs, cc)
 						}
+					} else if as, ok := cc.Comm.(*ast.AssignStmt); ok && len(as.Rhs) == 1 && len(as.Lhs) <= 2 {
+						// case x = <-ch:  /  case x, ok := <-ch:
+						if u, ok := as.Rhs[0].(*ast.UnaryExpr); ok && u.Op == token.ARROW {
+							recvs = append(recvs, cc)
+						}
 					}
 				}
 				if send != nil && hasDef {
@@ -595,14 +600,36 @@ func rewriteFile(f *ast.File, name string, info *types.Info) {
 				// form 2: select { case <-a: A; case <-b: B }  (two plain receive cases)
 				if len(recvs) == 2 {
 					needVT = true
-					a := recvs[0].Comm.(*ast.ExprStmt).X.(*ast.UnaryExpr).X
-					b := recvs[1].Comm.(*ast.ExprStmt).X.(*ast.UnaryExpr).X
+					chanOf := func(cc *ast.CommClause) ast.Expr {
+						if es, ok := cc.Comm.(*ast.ExprStmt); ok {
+							return es.X.(*ast.UnaryExpr).X
+						}
+						return cc.Comm.(*ast.AssignStmt).Rhs[0].(*ast.UnaryExpr).X
+					}
+					a := chanOf(recvs[0])
+					b := chanOf(recvs[1])
 					idx := ast.NewIdent("vtIdx")
+					vals := []ast.Expr{ast.NewIdent("_"), ast.NewIdent("_")}
+					okv := ast.Expr(ast.NewIdent("_"))
+					bodies := make([][]ast.Stmt, 2)
+					for k, cc := range recvs {
+						body := rewriteStmts(cc.Body)
+						if as, ok := cc.Comm.(*ast.AssignStmt); ok {
+							vals[k] = ast.NewIdent(fmt.Sprintf("vtV%d", k))
+							rhs := []ast.Expr{vals[k]}
+							if len(as.Lhs) == 2 {
+								okv = ast.NewIdent("vtOk")
+								rhs = append(rhs, okv)
+							}
+							body = append([]ast.Stmt{&ast.AssignStmt{Lhs: as.Lhs, Tok: as.Tok, Rhs: rhs}}, body...)
+						}
+						bodies[k] = body
+					}
 					call := vtCall("Select2", newSite(name, curFn, "select "+exprStr(a)+" | "+exprStr(b), "select", lastField(a), st.Pos()), a, b)
-					assign := &ast.AssignStmt{Lhs: []ast.Expr{idx, ast.NewIdent("_"), ast.NewIdent("_"), ast.NewIdent("_")}, Tok: token.DEFINE, Rhs: []ast.Expr{call}}
+					assign := &ast.AssignStmt{Lhs: []ast.Expr{idx, vals[0], vals[1], okv}, Tok: token.DEFINE, Rhs: []ast.Expr{call}}
 					sw := &ast.SwitchStmt{Init: assign, Tag: idx, Body: &ast.BlockStmt{List: []ast.Stmt{
-						&ast.CaseClause{List: []ast.Expr{&ast.BasicLit{Kind: token.INT, Value: "0"}}, Body: rewriteStmts(recvs[0].Body)},
-						&ast.CaseClause{List: []ast.Expr{&ast.BasicLit{Kind: token.INT, Value: "1"}}, Body: rewriteStmts(recvs[1].Body)},
+						&ast.CaseClause{List: []ast.Expr{&ast.BasicLit{Kind: token.INT, Value: "0"}}, Body: bodies[0]},
+						&ast.CaseClause{List: []ast.Expr{&ast.BasicLit{Kind: token.INT, Value: "1"}}, Body: bodies[1]},
 					}}}
 					return sw
 				}
